@@ -232,3 +232,26 @@ def run_linewriter(ctx):
         ctx.violation("lineWriter model and implementation disagree on %d cases" % len(mism),
                       {"theorem_or_correspondence": "correspondence Build/LineWriter.v <-> lineWriter.go", "cases": [cases[i] for i in mism[:5]]},
                       found_input=False)
+
+
+def run_renderers(ctx):
+    """C18: the CLI renderers driven by real event streams (no panic, well-formed JSON stream)."""
+    out = os.path.join(ctx.tmp, "render.tsv")
+    rc, o = ctx.go_overlay_test("cmd/dawn", {"zz_verif_c18_render_test.go": os.path.join(HARNESS, "overlay/cmd/dawn/zz_verif_c18_render_test.go")},
+                                "^TestVerifC18Renderers$", {"VERIF_OUT": out})
+    if rc != 0 or not os.path.exists(out):
+        ctx.violation("renderer harness failed (exit %d)" % rc, {"theorem_or_correspondence": "C18 renderer harness", "output": o[-2000:]},
+                      found_input=False)
+        return
+    steps, oracles = [], []
+    for line in open(out):
+        f = line.rstrip("\n").split("\t")
+        if f[0] == "ORACLE":
+            oracles.append(f[1])
+        elif f[0] == "step":
+            steps.append(f[1:])
+    for o_ in oracles[:3]:
+        ctx.violation("implementation violates C18: %s" % o_, {"oracle": o_, "how": "harness/overlay/cmd/dawn/zz_verif_c18_render_test.go"})
+    ctx.coverage["correspondence"]["renderer_steps"] = steps
+    ctx.coverage["evaluations"] += len(steps)
+    ctx.log("renderers: %d build scenarios through line/status/json/dot renderers, oracle_failures=%d" % (len(steps), len(oracles)))
